@@ -9,6 +9,7 @@ pub mod c11;
 pub mod c12;
 pub mod c16;
 pub mod c17;
+pub mod c18;
 pub mod lang;
 
 pub struct Case {
@@ -69,6 +70,7 @@ pub fn generate(prop: &str, tier: &str, g: &mut Gen) {
         "C12" => c12::generate(g, thorough),
         "C16" => c16::generate(g, thorough),
         "C17" => c17::generate(g, thorough),
+        "C18" => c18::generate(g, thorough),
         "C02" => c02::generate(g, thorough),
         "C03" => lang::generate_c03(g, thorough),
         "C04" => c04::generate(g, thorough),
